@@ -129,8 +129,9 @@ def _chunk(task):
 
 
 def PROOFS():
-    from ..contracts import design_c
-    return [("vf.contracts.design_c", design_c.FUNCTIONS)]
+    from ..contracts import design_c, variable_c  # noqa: F401
+    return [("vf.contracts.design_c", design_c.FUNCTIONS),
+            ("vf.contracts.variable_c", ["formulae.terms.variable.Variable.eval_categoric", "formulae.terms.call.Call.eval_categoric"])]
 
 
 def run(report, findings):
